@@ -117,11 +117,10 @@ ReplyCodes(kind) ==
     [] kind = "deluser"  -> {200}
     [] OTHER             -> 0..999
 \* at most one subscribe/leave of a session is in flight (Add blocks): their replies come back in request order
-InflightOrder(ev) ==
-  \A i, j \in DOMAIN ev :
-     (i < j /\ IsReq(ev[i]) /\ IsReq(ev[j]) /\ ev[i].kind \in {"sub", "leave", "unsub"} /\ ev[j].kind \in {"sub", "leave", "unsub"}) =>
-        \A a, b \in DOMAIN ev :
-           (ev[a].e = "ctrl" /\ ev[a].id = ev[i].id /\ ev[b].e = "ctrl" /\ ev[b].id = ev[j].id) => a < b
+Inflight(e) == IsReq(e) /\ e.kind \in {"sub", "leave", "unsub"}
+ReqReply(ev) == {p \in (DOMAIN ev) \X (DOMAIN ev) : Inflight(ev[p[1]]) /\ ev[p[2]].e = "ctrl" /\ ev[p[2]].id = ev[p[1]].id}
+\* (the hub's refusals release the slot BEFORE they queue the 503 - hub.go 203-206, 213-216 - so a 503 may be overtaken)
+InflightOrder(ev) == LET RP == ReqReply(ev) IN \A p, q \in RP : p[1] < q[1] => (p[2] < q[2] \/ ev[p[2]].code = 503)
 DivSess(v) ==
   (IF \E i, j \in DOMAIN v.ev : IsReq(v.ev[i]) /\ v.ev[j].e = "ctrl" /\ v.ev[j].id = v.ev[i].id /\ j > i
                                 /\ v.ev[j].code \notin ReplyCodes(v.ev[i].kind)
